@@ -58,10 +58,54 @@ def world_phase(rep, exe_impl, exe_model):
         t, m = wc.gen_project_case(rng)
         cases.append(("pj%d" % i, t, m))
     f, v = wk.run_cases(rep, exe_impl, exe_model, cases, ["bursts", "project_quiet", "queue_form", "fault_reported", "no_error"])
+    # the wait the daemon SLEEPS: the event loop of the real main() with scripted handler answers - after every
+    # notification of whatever kind (an execution, a write, the daemon's own write, neither) and after every wake-up
+    # the queue is asked again and the next poll() waits exactly what it answered: with an item pending the sleep is
+    # never the stale, longer wait computed before time went by
+    if not f:
+        import itertools
+        import check_C17 as c17
+        import main_common as mc
+        import vlib
+        kinds = ["exec", "write", "selfwrite", "none", "wakeup", "both", "pid0write"]
+        lcases = []
+        for d in (2, 3):
+            for combo in itertools.product(kinds, repeat=d):
+                if d == 3 and rep.tier == "quick" and rng.random() < 0.6:
+                    continue
+                left = rng.choice([60, 300, 7])
+                slots = []
+                for i, k in enumerate(combo):
+                    kw = dict(c17.KINDS[k])
+                    kw["timeout"] = left            # the item becomes due in `left` seconds ...
+                    left = max(1, left - rng.randint(1, 20))     # ... and time goes by between notifications
+                    kw.setdefault("fd", 1005 + i)
+                    slots.append(mc.slot(**kw))
+                lcases.append(("lw%d" % len(lcases), mc.main_case(slots=slots), (combo, slots)))
+        limpl, lmodel, lproblems = vlib.correspond(exe_impl, exe_model, "main", [(c, t) for c, t, _ in lcases], sandbox=True)
+        for cid, script, (combo, slots) in lcases:
+            il = limpl.get(cid) or []
+            idx = next((i for i, l in enumerate(il) if l.startswith("load ")), None)
+            got = il[idx + 1:] if idx is not None else il
+            exp = c17.expected(combo, slots)
+            if got != exp:
+                first = next((i for i, (a, b) in enumerate(zip(got, exp)) if a != b), min(len(got), len(exp)))
+                rep.violation("loop-wait", {"case": cid, "slots": list(combo), "script": script.split("\n"), "driver": "main", "implementation": il, "expected_by_property": exp,
+                                            "what": "with an item pending (due in %s s as the queue answers after each notification) the event loop did %s where %s is required: the wait slept is not the one the queue asked for after the %s notification"
+                                                    % ([sl[10] for sl in slots], got[first:first + 2], exp[first:first + 2], combo[max(0, sum(1 for x in exp[:first] if x.startswith("poll")) - 1)])})
+                f = True
+                break
+            if exe_model and il != lmodel.get(cid):
+                rep.defer_divergence({"case": cid, "script": script.split("\n"), "driver": "main", "implementation": il, "model": lmodel.get(cid), "what": "implementation and model differ on the event loop"})
+                continue
+            v += 1
+        cases = cases + lcases
+        for p_ in lproblems:
+            rep.notes.append(p_)
     rep.cov["evaluations"] = rep.cov.get("evaluations", 0) + len(cases)
     rep.cov["traces_validated_against_impl"] = rep.cov.get("traces_validated_against_impl", 0) + v
     rep.cov["rule"] = rep.cov.get("rule", "") + ("; handler level: histories of writes, clock steps and passes in which the watched configuration file is rewritten "
-                                                 "with another debounce_seconds (same queue) while items are pending; every pass is judged with the interval in force; projects: a save in a project followed inside the quiet period by a save deeper in the same project (configured roots and children of a project parent), passes at the first save's due time, one second before the project is quiet and when it is - a snapshot appears only when the latest accepted write below the project's root is old enough (judged from the write events, not from the queue)")
+                                                 "with another debounce_seconds (same queue) while items are pending; every pass is judged with the interval in force; projects: a save in a project followed inside the quiet period by a save deeper in the same project (configured roots and children of a project parent), passes at the first save's due time, one second before the project is quiet and when it is - a snapshot appears only when the latest accepted write below the project's root is old enough (judged from the write events, not from the queue); the real main() loop over 2-3 notifications of every kind with an item pending whose remaining time shrinks: every poll() sleeps what the queue answered after the latest notification")
     return f
 
 
@@ -72,6 +116,13 @@ def main(rep):
 def replay(rep, path):
     import json
     d = json.load(open(path))
+    if d.get("driver") == "main":
+        import vlib
+        exe_impl, exe_model = vlib.prepare(rep)
+        impl, model, _ = vlib.correspond(exe_impl, exe_model, "main", [("replay", "\n".join(d["script"]))], sandbox=True)
+        print("implementation:", impl.get("replay"))
+        print("model:         ", model.get("replay"))
+        return 1 if impl.get("replay") != model.get("replay") else 0
     if any(l.startswith("cfg ") for l in d.get("script", [])):
         return wk.replay_world(rep, path, ["bursts", "project_quiet"])
     return check_C14.replay(rep, path, pid="C01")
